@@ -65,7 +65,8 @@ RuleCalleeStart(given, aex, jp, first) ==
 RulePostStart(aen, jp, last) == (PostIdx(jp) # {} /\ last >= 0) => aen[FirstOf(PostIdx(jp))] = last
 \* the caller gets back exactly what the post join point left when the frame succeeds or reverts, nothing otherwise
 RuleReturn(given, used, aex, jp, last, err, preFailed) ==
-  IF preFailed THEN TRUE      \* the property fixes the amount only for out-of-gas (below)
+  IF preFailed     \* the exact amount is fixed only for out-of-gas (below); but what the failing Aspect consumed is deducted in every case:
+  THEN PreIdx(jp) # {} => Returned(given, used) <= aex[LastOf(PreIdx(jp))]     \* the caller cannot get back more than the pre join point left
   ELSE IF err \in {"", "execution reverted"}
        THEN Returned(given, used) = (IF PostIdx(jp) = {} THEN (IF last >= 0 THEN last ELSE Returned(given, used)) ELSE aex[LastOf(PostIdx(jp))])
        ELSE Returned(given, used) = 0
